@@ -65,7 +65,13 @@ PARTIAL = ["tree level, error bound: proved are (i) one projector insertion at t
            "is visited exactly once); svd_truncation: svd_truncation_bonds_le_partial - cut bonds stay <= max_bond_dim and "
            "no bond grows GIVEN, per event, that the model's centreMove / contractSplit change only their own bond "
            "(BondLocal: decided by evaluation on a concrete sweep in Lean, by the oracle on every run) and that a QR move "
-           "does not exceed the dimension of the bond it crosses",
+           "does not exceed the dimension of the bond it crosses; the sweep ORDER is proved on the C17 tree model "
+           "(svd_sweep_cuts_every_edge: linearise()[:-1] paired with the parents is a duplicate-free list that is a "
+           "permutation of the (child, parent) edges - every bond is cut exactly once; svd_sweep_events_along_edges: the "
+           "moves along path_from_to and the cuts all run along tree edges), hence svd_truncation_sweep_bonds_le_partial: "
+           "after the modelled sweep EVERY bond is <= max_bond_dim - still GIVEN BondLocal per event (only the pull-back "
+           "lemmas bl37_contract_pull / bl37_split_pull / bl37_contract_split_pull of contract_nodes / split_nodes are "
+           "proved for all networks)",
            "value level: projector_matrix_value / projector_identity_value / projector_linear_value / "
            "recursive_truncation_value_telescope are about the flat-network semantics netValue with the inserted tensors "
            "P, Pc ARBITRARY; for P = U1.conj(), Pc = U1.T GIVEN the SVD contract in index form svd_projector_value proves "
